@@ -510,9 +510,12 @@ def create_tree_model(id_: str, taxa: dict, arg):
 
 
 def create_poisson_tree_likelihood(id_, taxa, arg):
+    rate_init = initial_rate(taxa, arg)
     tree_id = "tree"
     tree_model = create_tree_model(tree_id, taxa, arg)
-    branch_model = create_branch_model("branchmodel", tree_id, len(taxa["taxa"]), arg)
+    branch_model = create_branch_model(
+        "branchmodel", tree_id, len(taxa["taxa"]), arg, rate_init
+    )
 
     treelikelihood_model = {
         "id": id_,
@@ -615,7 +618,8 @@ def create_tree_likelihood_general(trait: str, data_type: dict, taxa: Taxa, arg)
     return treelikelihood_model
 
 
-def create_tree_likelihood(id_, taxa, alignment, arg):
+def initial_rate(taxa, arg):
+    """Initial substitution rate asked for with --rate_init (a number or a regression)."""
     rate_init = arg.rate_init if isinstance(arg.rate_init, numbers.Number) else None
     if arg.clock is not None and (
         arg.rate_init == "regression" or arg.heights_init == "regression"
@@ -628,6 +632,11 @@ def create_tree_likelihood(id_, taxa, alignment, arg):
                 rate_init = rate_init_r
             if arg.root_height_init is None:
                 arg.root_height_init = max(dates) - root_height_init
+    return rate_init
+
+
+def create_tree_likelihood(id_, taxa, alignment, arg):
+    rate_init = initial_rate(taxa, arg)
 
     if arg.model == "SRD06":
         branch_model = None
